@@ -604,19 +604,34 @@ impl Iterator for ManifestIterator {
             }
         };
         let mut edit = Edit::default();
-        for (idx, line) in file.lines().enumerate() {
-            let line = match line {
-                Ok(line) => line,
+        let mut lineno = 0usize;
+        loop {
+            // NOTE:  Split on '\n' only.  The writer accepts every string without a newline, so
+            // the reader must not strip a trailing '\r' or refuse non-ASCII or empty payloads.
+            let mut raw = Vec::new();
+            match file.read_until(b'\n', &mut raw) {
+                Ok(0) => {
+                    break;
+                }
+                Ok(_) => {}
                 Err(err) => {
                     return self.poison(err);
                 }
             };
-            if !line.is_ascii() {
-                return Some(Err(corruption(format!("line {idx} is not ascii"))));
+            if raw.last() == Some(&b'\n') {
+                raw.pop();
             }
+            let line = match String::from_utf8(raw) {
+                Ok(line) => line,
+                Err(_) => {
+                    return self.poison(corruption(format!("line {lineno} is not utf8")));
+                }
+            };
+            let idx = lineno;
+            lineno += 1;
             if line == TX_SEPARATOR {
                 return Some(Ok(edit));
-            } else if line.len() > 9 {
+            } else if line.len() >= 9 && line.as_bytes()[..9].is_ascii() {
                 let crc32c_expected = match u32::from_str_radix(&line[..8], 16) {
                     Ok(crc32c_expected) => crc32c_expected,
                     Err(err) => {
